@@ -137,7 +137,12 @@ func (e *Encoder) writeMap(data interface{}) (int, error) {
 			if err != nil {
 				return 0, err
 			}
-			_, err = e.WriteData(vv.MapIndex(keys[i]).Interface())
+			val := vv.MapIndex(keys[i])
+			if !val.IsValid() {
+				// a key that is not equal to itself (a NaN) cannot be looked up: its entry cannot be encoded
+				return 0, newCodecError("writeMap", "map entry with a key of type %T cannot be looked up", k.Interface())
+			}
+			_, err = e.WriteData(val.Interface())
 			if err != nil {
 				return 0, err
 			}
